@@ -1002,6 +1002,8 @@ func execMsg(op string, a []string) string {
 		return dispatchMode(args, false)
 	case "msg.reuse":
 		return execReuse(a)
+	case "msg.otherkey":
+		return execOtherKey(a)
 	case "msg.noncehistory":
 		return execNonceHistory(a)
 	case "msg.reencode":
